@@ -6,6 +6,9 @@ import "fmt"
 // exceed Bound (iterative context bounding, stateless depth-first search over
 // choice sequences).
 type Explorer struct {
+	// Delay: count every non-default choice as a deviation (delay bounding: a deterministic
+	// scheduler plus at most Bound deviations) instead of counting preemptions only.
+	Delay bool
 	Bound int
 	Opt   Options
 	Body  func()
@@ -24,7 +27,10 @@ type Explorer struct {
 	Infra      string
 }
 
-func preempts(p Point, choice int) bool {
+func (x *Explorer) preempts(p Point, choice int) bool {
+	if x.Delay {
+		return !p.Data && choice > 0
+	}
 	return !p.Data && p.CurEnabled > 0 && choice >= p.CurEnabled
 }
 
@@ -70,7 +76,7 @@ func (x *Explorer) explore(prefix []int) bool {
 	choices := e.Trace
 	cost := 0
 	for i := 0; i < len(prefix) && i < len(e.Points); i++ {
-		if preempts(e.Points[i], choices[i]) {
+		if x.preempts(e.Points[i], choices[i]) {
 			cost++
 		}
 	}
@@ -78,7 +84,7 @@ func (x *Explorer) explore(prefix []int) bool {
 		p := e.Points[i]
 		for alt := 1; alt < p.Enabled; alt++ {
 			c := cost
-			if preempts(p, alt) {
+			if x.preempts(p, alt) {
 				c++
 			}
 			if c > x.Bound {
@@ -89,7 +95,7 @@ func (x *Explorer) explore(prefix []int) bool {
 				return false
 			}
 		}
-		if preempts(p, choices[i]) {
+		if x.preempts(p, choices[i]) {
 			cost++
 		}
 	}
